@@ -17,7 +17,8 @@ RULE = ("denc <type> <value>: every type definition drawn by verifkit/derivegen.
         "value-affecting attribute: index gaps / permutations, array|map at struct, enum and variant level, index_only, transparent, skip, tags at "
         "all four levels, with=minicbor::bytes, a nil-aware custom codec, unit/tuple/named shapes, >=24 fields, nesting; nil-capable field types that are NOT "
         "spelled Option<..> - a type parameter of a generic struct / enum instantiated at Option<..>, a `type` alias of Option<..>, a hand-written newtype "
-        "overriding Encode::is_nil / Decode::nil - in array and map encoding with the nil value in trailing and non-trailing position; plus random "
+        "overriding Encode::is_nil / Decode::nil - and path-qualified core::option::Option<..> / std::option::Option<..> (alone, under with=minicbor::bytes and under a "
+        "custom codec module without nil functions), in array and map encoding with the nil value in trailing and non-trailing position; plus random "
         "schemas from the grammar) x presence combinations of the optional fields (all 2^k for k<=5 within the cap, else none/all/each-one/all-but-one/"
         "prefixes/random) x boundary field values.  Oracle: bytes == documented format, computed twice independently (Lean specEncode = encPref(specTy) "
         "and the Python reference encoder).  Twin stream: every schema is declared a second time with other names, shuffled declaration order of fields "
